@@ -37,6 +37,7 @@ def run(ctx):
     # directory invocations convert many files in one process: the n-th conversion must equal a first one (no options object shared
     # and completed in place, no state kept by the exporter)
     from . import shared
+    shared.makedirs_guarded(ctx, 'R3', [f'{N.EXPORTER}.kern_to_ekern', f'{N.EXPORTER}.ekern_to_krn', f'{N.IO}._write'])
     shared.effect_free(ctx, 'R7', [f'{N.GENERIC}.Generic.export', f'{N.EXPORTER}.get_kern_from_ekern'],
                        'a conversion must not depend on the files converted before it in the same run')
 
